@@ -844,3 +844,13 @@ def covers_all(covers):
     if [c for c in covers if c[0] == 'all']:
         return len(covers) == 1
     return len(covers) == 2 and covers[0][1] == covers[1][1] and {covers[0][2], covers[1][2]} == {0, 1}
+
+
+def new_type(facts, adt_path):
+    """is `adt_path` a type the reference tree does not have?  A property quantifies over the types that exist; a type
+    added later (a new adaptor, a new node) is outside the tables the rules were written from.  Rules that enumerate
+    *every* impl of a trait note such impls instead of forcing them into a class they were never meant to have."""
+    import equiv
+    meta = equiv.reference(facts.config).get('#meta') or {}
+    adts = meta.get('adts')
+    return bool(adts) and isinstance(adt_path, str) and '::' in adt_path and adt_path not in adts and adt_path in facts.adts
